@@ -99,7 +99,11 @@ def run_scenario(sc):
             async def lookup():
                 name = ('nobody.' if sc['lookup_missing'] else 'peer.') + TB
                 info = AsyncServiceInfo(TB, name)
-                ok = await info.async_request(a.zc, 3000)
+                try:
+                    ok = await info.async_request(a.zc, 3000)
+                except Exception as e:  # noqa: BLE001  (a lookup on an instance that is closing raises NotRunningException to its caller)
+                    res['lookup_done'].append((sim.now, type(e).__name__))
+                    return
                 res['lookup_done'].append((sim.now, bool(ok)))
             extra = svc('late', TA, 'hl.local.', 5)
             qid = [200]
